@@ -91,8 +91,9 @@ type walker struct {
 	shared  map[types.Object]bool
 	// locals that hold exactly one function literal for their whole life (safe to inline even
 	// when another closure captures them)
-	boundOnce map[types.Object]bool
-	entry     *Frame
+	boundOnce  map[types.Object]bool
+	sharedMemo map[types.Object]bool
+	entry      *Frame
 }
 
 func (w *walker) isShared(o types.Object) bool {
@@ -104,7 +105,38 @@ func (w *walker) isShared(o types.Object) bool {
 			return true // package-level variable
 		}
 	}
-	return w.shared[o]
+	if w.shared[o] {
+		return true
+	}
+	// a local of an inlined declared function: its own escape information decides
+	if v, ok := o.(*types.Var); ok && v.Pos().IsValid() {
+		if w.sharedMemo == nil {
+			w.sharedMemo = map[types.Object]bool{}
+		}
+		if r, ok := w.sharedMemo[o]; ok {
+			return r
+		}
+		r := false
+		if d := w.prog.EnclosingDecl(v.Pos()); d != nil {
+			r = SharedLocals(w.prog, d)[o]
+		}
+		w.sharedMemo[o] = r
+		return r
+	}
+	return false
+}
+
+// isBoundOnce: a local bound exactly once to a function literal (in whichever function declares it).
+func (w *walker) isBoundOnce(o types.Object) bool {
+	if w.boundOnce[o] {
+		return true
+	}
+	if v, ok := o.(*types.Var); ok && v.Pos().IsValid() {
+		if d := w.prog.EnclosingDecl(v.Pos()); d != nil {
+			return len(EscapesOf(w.prog, d).Bound[o]) == 1
+		}
+	}
+	return false
 }
 
 // Walk enumerates the paths of an entry.
@@ -634,6 +666,68 @@ func (w *walker) doReturn(st *state, rs *ast.ReturnStmt) {
 		if len(results) == 1 && len(vals) == 1 && st.lastVals != nil && len(st.lastVals) > 1 {
 			if _, ok := unparen(results[0]).(*ast.CallExpr); ok {
 				vals = st.lastVals
+			}
+		}
+		// a bare return of named results yields their current values
+		if len(results) == 0 {
+			if ft := st.fr().FuncType(); ft != nil && ft.Results != nil {
+				for _, f := range ft.Results.List {
+					for _, n := range f.Names {
+						v := Value{}
+						if o := st.fr().Info().Defs[n]; o != nil && !w.isShared(o) {
+							if bv, ok := st.env.lookup(o); ok {
+								v = bv
+							}
+						}
+						vals = append(vals, v)
+					}
+				}
+			}
+		}
+		// a returned variable whose nil-ness a branch decided on this path keeps that fact: the
+		// caller's "if err != nil" after "x, err := helper()" is then not an open question
+		nilness := func(e ast.Expr) Value {
+			t := st.fr().Info().TypeOf(e)
+			if t == nil {
+				return Value{}
+			}
+			switch t.Underlying().(type) {
+			case *types.Interface, *types.Pointer, *types.Signature, *types.Map, *types.Chan, *types.Slice:
+			default:
+				return Value{}
+			}
+			ki := keyInfo{pure: true}
+			key := w.exprKey(e, st.fr(), st, &ki)
+			if !ki.pure || ki.shared {
+				return Value{}
+			}
+			ki.key = "(" + key + " == nil)"
+			if isNil, known := st.facts.lookup(ki); known {
+				if isNil {
+					return Value{Kind: VNil}
+				}
+				return Value{Kind: VNonNil}
+			}
+			return Value{}
+		}
+		if len(results) == len(vals) {
+			vals = append([]Value(nil), vals...)
+			for i, e := range results {
+				if vals[i].Kind == VUnknown {
+					vals[i] = nilness(e)
+				}
+			}
+		} else if len(results) == 0 && len(vals) > 0 {
+			if ft := st.fr().FuncType(); ft != nil && ft.Results != nil {
+				i := 0
+				for _, f := range ft.Results.List {
+					for _, n := range f.Names {
+						if i < len(vals) && vals[i].Kind == VUnknown {
+							vals[i] = nilness(n)
+						}
+						i++
+					}
+				}
 			}
 		}
 		ev := w.emit(st, &Event{Kind: KReturn, Pos: pos, Node: node, Results: results})
